@@ -11,6 +11,7 @@ pub use super::deltas::verif_hooks::interpolate_deltas_fixed;
 pub use super::deltas::verif_hooks::{composite_glyph_deltas_fixed, simple_glyph_deltas_fixed};
 pub use super::hint::verif_hooks::hint_arith;
 pub use super::hint::verif_hooks::hint_round_ops;
+pub use super::hint::verif_hooks::hint_value_stack;
 
 /// The fixed point vector length used to scale composite component offsets.
 pub fn ft_hypot(x: i32, y: i32) -> i32 {
